@@ -27,10 +27,12 @@ NumpyStaysNumpyStep(kind, pre, post) == (kind = "transform" /\ pre.back = "np") 
 ContainerOnlyStep(kind, pre, post) ==
   kind \in {"container", "run"} =>
     /\ post.cls = pre.cls /\ post.sh = pre.sh /\ post.per = pre.per /\ post.t0 = pre.t0 /\ post.clo = pre.clo
-\* the chunk grid of a Dask-backed result: one composition per axis
+\* the chunk grid of a Dask-backed result: per axis, chunk lengths that add up to the axis
+\* length (real Dask also produces empty chunks, e.g. when empty pieces are concatenated)
+IsChunking(c, n) == Len(c) >= 1 /\ Sum(c) = n /\ \A j \in 1..Len(c) : c[j] >= 0
 GridStep(post) ==
   post.back = "dask" => /\ Len(post.ch) = Len(post.sh)
-                        /\ \A a \in 1..Len(post.sh) : IsComposition(post.ch[a], post.sh[a])
+                        /\ \A a \in 1..Len(post.sh) : IsChunking(post.ch[a], post.sh[a])
 \* a refusal is legitimate only for an FFT over an axis that is chunked
 FftAxes(op, a) ==
   CASE op \in {"time_shift", "freq_shift", "coh_dd", "snippet", "stft"} -> {1}
@@ -47,6 +49,9 @@ RunStep(op, pre, post) ==
   /\ (pre.back = "dask" /\ op = "compute") => post.back = "np"
   /\ (pre.back = "dask" /\ op = "persist") => post.back = "dask" /\ post.ch = pre.ch
   /\ (pre.back = "dask" /\ op = "asarray") => post.back = "dask" /\ post.ch = pre.ch
+\* a persisted signal holds its data: computing it again ("rerun") executes no task of the
+\* graph that was persisted
+RerunStep(kind, n0, n1) == kind = "rerun" => n1 = n0
 \* to_dask_array / rechunk always return a Dask-backed signal
 ContainerBackStep(kind, post) == kind = "container" => post.back = "dask"
 =============================================================================
